@@ -417,9 +417,16 @@ class SpecDef:
 SPEC_DEFS: dict[str, SpecDef] = {}
 
 
-def _apps(e, acc, seen):
-    """collect applications of defined symbols in term e"""
-    stack = [e]
+_APPS_CACHE: dict = {}  # formula id -> defined-symbol applications occurring in it (formulas are hash-consed and immutable)
+_KEEP: list = []  # keeps cached formulas alive so that ids are not reused
+
+
+def _apps_of(f):
+    fid = f.get_id()
+    hit = _APPS_CACHE.get(fid)
+    if hit is not None:
+        return hit
+    acc, seen, stack = [], set(), [f]
     while stack:
         x = stack.pop()
         i = x.get_id()
@@ -427,20 +434,22 @@ def _apps(e, acc, seen):
             continue
         seen.add(i)
         if z3.is_app(x):
-            nm = x.decl().name()
-            if nm in SPEC_DEFS and x.num_args() > 0:
+            if x.num_args() > 0 and x.decl().name() in SPEC_DEFS:
                 acc.append(x)
             stack.extend(x.children())
         elif z3.is_quantifier(x):
             stack.append(x.body())
+    _APPS_CACHE[fid] = acc
+    _KEEP.append(f)
+    return acc
 
 
 def unfold(formulas: list, depth: int = 2, limit: int = 400) -> list:
     """Ground unfolding axioms for all defined-symbol applications reachable in `depth` rounds."""
-    axioms, seen_terms, done = [], set(), set()
+    axioms, done = [], set()
     frontier: list = []
     for f in formulas:
-        _apps(f, frontier, seen_terms)
+        frontier.extend(_apps_of(f))
     for _ in range(depth):
         nxt: list = []
         for app in frontier:
@@ -448,10 +457,12 @@ def unfold(formulas: list, depth: int = 2, limit: int = 400) -> list:
             if key in done:
                 continue
             done.add(key)
-            sd = SPEC_DEFS[app.decl().name()]
+            sd = SPEC_DEFS.get(app.decl().name())
+            if sd is None:
+                continue
             inst = sd.instance(app.children())
             axioms.append(inst)
-            _apps(inst, nxt, seen_terms)
+            nxt.extend(_apps_of(inst))
             if len(axioms) >= limit:
                 return axioms
         frontier = nxt
@@ -466,33 +477,51 @@ COMMUTATIVE: set[str] = set()  # names of binary function symbols assumed commut
 TERM_AXIOMS: dict = {}  # function symbol name -> callable(app) -> list of (assumed) ground facts about that term
 
 
+_TAX_CACHE: dict = {}  # formula id -> one round of term-axiom instances for the terms of that formula
+
+
+def _term_axioms_of(f):
+    fid = f.get_id()
+    hit = _TAX_CACHE.get(fid)
+    if hit is not None:
+        return hit
+    new, seen, stack = [], set(), [f]
+    while stack:
+        x = stack.pop()
+        i = x.get_id()
+        if i in seen:
+            continue
+        seen.add(i)
+        if z3.is_app(x):
+            if x.num_args() == 2 and x.decl().name() in COMMUTATIVE:
+                a, b = x.children()
+                if a.get_id() != b.get_id():
+                    new.append(x == x.decl()(b, a))
+            h = TERM_AXIOMS.get(x.decl().name()) if x.num_args() > 0 else None
+            if h is not None:
+                new.extend(h(x))
+            stack.extend(x.children())
+        elif z3.is_quantifier(x):
+            stack.append(x.body())
+    _TAX_CACHE[fid] = new
+    _KEEP.append(f)
+    return new
+
+
 def commutativity_instances(formulas: list, rounds: int = 14, limit: int = 3000) -> list:
     """ground instances of commutativity and of the registered TERM_AXIOMS for the terms of the query
     (iterated, because an instantiated axiom mentions new terms)"""
-    out, seen = [], set()
+    out, have = [], set()
     frontier = list(formulas)
     for _ in range(rounds):
         new = []
-        stack = frontier
-        while stack:
-            x = stack.pop()
-            i = x.get_id()
-            if i in seen:
-                continue
-            seen.add(i)
-            if z3.is_app(x):
-                if x.num_args() == 2 and x.decl().name() in COMMUTATIVE:
-                    a, b = x.children()
-                    if a.get_id() != b.get_id():
-                        new.append(x == x.decl()(b, a))
-                h = TERM_AXIOMS.get(x.decl().name()) if x.num_args() > 0 else None
-                if h is not None:
-                    new.extend(h(x))
-                stack.extend(x.children())
-            elif z3.is_quantifier(x):
-                stack.append(x.body())
+        for f in frontier:
+            for ax in _term_axioms_of(f):
+                if ax.get_id() not in have:
+                    have.add(ax.get_id())
+                    new.append(ax)
         if not new or len(out) > limit:
             break
         out.extend(new)
-        frontier = list(new)
+        frontier = new
     return out
